@@ -3,6 +3,7 @@ package main
 import (
 	"fmt"
 	"go/types"
+	"regexp"
 	"strings"
 
 	"golang.org/x/tools/go/ssa"
@@ -43,6 +44,7 @@ func runC15(c *Ctx, tier string) {
 	c15DoLint(c, r)
 	c15SetLints(c, r)
 	c15Main(c, r)
+	c15Args(c, r)
 	c15Summary(c, r)
 	// (5) unknown selectors: the CLI relies on the library to reject them
 	sourceSwitches(c, r, "source-exhaustive", false)
@@ -52,7 +54,8 @@ func runC15(c *Ctx, tier string) {
 	c13NameList(c, r, BuildCensus(c))
 	// "-config together with a selection flag": the registry Filter returns carries
 	// the configuration set on the global registry before (Filter's tables, C08)
-	filterChecks(c, r, false)
+	filterChecks(c, r, true)
+	c08Empty(c, r) // when Filter may hand back the registry it was given instead of a copy
 	r.Finish()
 }
 
@@ -616,6 +619,31 @@ func c15SetLints(c *Ctx, r *Report) {
 		}
 	}
 	r.Check(bad == "", "setlints-table", "anyFilters", anyFn.Pos(), "true iff some selector is non-empty", bad)
+}
+
+// c15Args: the files the CLI lints are the command-line arguments themselves:
+// every os.Open in main (helpers newer than the rules included) takes an element
+// of flag.Args() / flag.Arg(i) as it is — not a pattern expansion, a cleaned or
+// otherwise rewritten path (a file named leaf[1].pem would be read as a glob).
+func c15Args(c *Ctx, r *Report) {
+	fn := c.Func("cmd/zlint", "main")
+	argRe := regexp.MustCompile(`^flag\.Args\(\)\[[^\]]*\]$|^flag\.Arg\([^)]*\)$`)
+	n := 0
+	allInstrsDeep(fn, func(in ssa.Instruction) {
+		call, ok := in.(ssa.CallInstruction)
+		if !ok {
+			return
+		}
+		name := staticCalleeName(call.Common())
+		if name != "os.Open" && name != "os.OpenFile" && name != "os.ReadFile" {
+			return
+		}
+		n++
+		p := apath(call.Common().Args[0])
+		r.Check(argRe.MatchString(p), "args-verbatim", name+"("+trimStr(p, 60)+")", in.Pos(), "opens a command-line argument as given",
+			"main opens "+p+", which is not a command-line argument as given (flag.Args()[i]): the file that is linted is not the one named on the command line")
+	})
+	r.Floor("files opened by main", 1, n)
 }
 
 func c15Main(c *Ctx, r *Report) {
